@@ -50,3 +50,21 @@ Example session_example :
   current_text [Open a (b "1"); Open c (b "x"); Change a (b "2"); Close c; Request a] c = None /\
   overlay [(c, b "disk")] [Open a (b "1"); Open c (b "x"); Change a (b "2"); Close c] c = Some (b "disk").
 Proof. vm_compute. repeat split. Qed.
+
+(* ---- ranges: every position the server reports is the position of a token (ucg_pos_to_range of a token position); in the
+   tokenizer's units (lines end at LF, columns count bytes) such a position lies inside the document.  This is the boundary of
+   the listed finding C20-position-units: outside it only in the protocol's units (UTF-16, CR as line end). ---- *)
+From Ucg Require Import lex.Lex_Types lex.Lex lex.Lex_Doc.
+
+Theorem token_positions_lie_in_the_document : forall src toks t,
+  lex src = Some toks -> In t toks ->
+  N.to_nat (line t) - 1 < List.length (lines_of src) /\
+  N.to_nat (col t) - 1 <= List.length (nth (N.to_nat (line t) - 1) (lines_of src) []).
+Proof. exact token_position_lsp_lex. Qed.
+
+(* a token that cannot span lines ends on its line too (semantic tokens of keywords, names, numbers, operators) *)
+Theorem single_line_token_ranges_lie_in_the_document : forall src toks t,
+  lex_all src = Some toks -> In t toks ->
+  typ t <> END -> typ t <> QUOTED -> typ t <> WS -> typ t <> COMMENT ->
+  N.to_nat (col t) - 1 + List.length (frag t) <= List.length (nth (N.to_nat (line t) - 1) (lines_of src) []).
+Proof. exact token_range_lsp. Qed.
